@@ -262,7 +262,31 @@ def r16(orig, rule):
     return 'let __r: &mut %s = &mut **%s; %s(__r);' % (ty, x, m.group(1))
 
 
+def r19(orig, rule):
+    # X -= E;  ->  let __k = E; X -= __k;     (names the intermediate so that a proof block can sit between the call and the update;
+    #                                           for a primitive left operand the right operand is evaluated first in both forms)
+    s = norm(orig)
+    m = _m(r'(%s) (-=|\+=) (.+) ;' % ID, s)
+    x, op, e = m.groups()
+    return 'let __k = %s; %s %s __k;' % (e, x, op)
+
+
+def r13(orig, rule):
+    # float one-liners Verus cannot type:  (X as f64 / 8.0).ceil() as usize  ->  ceil_div8(X)        (trusted stub, spec (X+7)/8 for X < 2^53)
+    #                                      (X as f32).log2().ceil() as u32|usize -> ceil_log2(X) [as usize]
+    s = norm(orig)
+    m = re.search(r'\( (.+?) as f64 / 8\.0 \) \. ceil \( \) as usize', s)
+    if m:
+        return s[:m.start()] + 'ceil_div8(%s)' % m.group(1) + s[m.end():]
+    m = re.search(r'\( (.+?) as f32 \) \. log2 \( \) \. ceil \( \) as (u32|usize)', s)
+    if m:
+        return s[:m.start()] + 'ceil_log2(%s) as %s' % (m.group(1), m.group(2)) + s[m.end():]
+    raise NoMatch('no float one-liner')
+
+
 GENERATORS = {
+    'R13': r13,
+    'R19': r19,
     'R12': r12, 'R16': r16,
     'R5': r5, 'R5sig': r5sig,
     'R18': r18,
